@@ -304,6 +304,17 @@ class Image:
             for c in classes:
                 tf = c.model_fields.get("typename__")
                 lits = typing.get_args(tf.annotation) if tf is not None else ()
+                if not lits:
+                    # __typename selected only under an alias: the literal sits on the field standing for that key
+                    from graphql import FieldNode
+
+                    for sel in sets.selections:
+                        if isinstance(sel, FieldNode) and sel.name.value == "__typename" and sel.alias:
+                            for fi in c.model_fields.values():
+                                if fi.alias == sel.alias.value or (fi.alias is None and sel.alias.value in c.model_fields
+                                                                   and c.model_fields[sel.alias.value] is fi):
+                                    if typing.get_origin(fi.annotation) is typing.Literal:
+                                        lits = typing.get_args(fi.annotation)
                 for lit in lits:
                     if lit in possible:
                         covered.add(lit)
